@@ -174,9 +174,26 @@ func SuccessSeqs(f *ssa.Function, o SeqOpts) (seqs [][]string, ok bool) {
 					}
 					if !rec && len(h.Params) == len(call.Call.Args) {
 						pm := map[ssa.Value]string{}
+						savedArgs := map[ssa.Value]ssa.Value{}
 						for k, p := range h.Params {
 							pm[p] = Sym(call.Call.Args[k])
+							if cur, has := boundArg[p]; has {
+								savedArgs[p] = cur
+							}
 						}
+						for k, p := range h.Params {
+							boundArg[p] = call.Call.Args[k]
+						}
+						restoreArgs := func() {
+							for _, p := range h.Params {
+								if v, has := savedArgs[p]; has {
+									boundArg[p] = v
+								} else {
+									delete(boundArg, p)
+								}
+							}
+						}
+						defer restoreArgs()
 						undoParams := bind(pm)
 						idx := i
 						sub := &frame{fn: h, count: map[*ssa.BasicBlock]int{}, depth: fr.depth + 1, stack: append(append([]*ssa.Function{}, fr.stack...), fr.fn)}
